@@ -319,7 +319,7 @@ fn simple_statements() -> Vec<TS> {
             v.push(s_let(l.clone(), None, vec![e.clone()]));
         }
         v.push(s_say(e.clone()));
-        for f in 0..6 {
+        for f in 0..8 {
             v.push(s_return(e.clone(), f));
         }
         for d in [Dir::Up, Dir::Down, Dir::Nearest] {
@@ -529,6 +529,8 @@ pub enum Dev {
     Whole(usize),
     Indent(usize, usize),
     SuffixIs(usize, usize),
+    /// trailing punctuation on the last line of a text that has no final newline
+    TrailingPunctAtEof(usize, usize),
 }
 
 /// alias number a of a keyword class: as listed (a < n), upper case (n <= a < 2n), first letter capital (2n <= a < 3n)
@@ -672,6 +674,14 @@ pub fn deviations(toks: &[Tk]) -> Vec<Dev> {
     for k in 0..8 {
         v.push(Dev::Whole(k));
     }
+    if v.iter().any(|d| matches!(d, Dev::NoFinalNewline)) {
+        let last = toks.len() - 1;
+        let at_end: Vec<Dev> = v.iter().filter_map(|d| match d {
+            Dev::TrailingPunct(i, p) if *i == last && *p < 2 => Some(Dev::TrailingPunctAtEof(*i, *p)),
+            _ => None,
+        }).collect();
+        v.extend(at_end);
+    }
     v
 }
 
@@ -689,6 +699,13 @@ pub fn apply_dev(toks: &[Tk], d: &Dev) -> String {
         Dev::Noise(i, n) => render_with(&t, Some((*i, NOISE[*n]))),
         Dev::Indent(i, k) => render_with(&t, Some((*i, ["  ", "\t"][*k]))),
         Dev::TrailingPunct(i, p) => render_with(&t, Some((*i, [".", ",", " "][*p]))),
+        Dev::TrailingPunctAtEof(i, p) => {
+            let mut text = render_with(&t, Some((*i, [".", ","][*p])));
+            if text.ends_with('\n') {
+                text.pop();
+            }
+            text
+        }
         Dev::NoFinalNewline => {
             t.pop();
             render(&t)
@@ -904,7 +921,7 @@ fn locate(prefix: &[u64], idx: u64) -> (usize, u64) {
 /// token positions of deviation d (for the pair family: two deviations must not touch the same token)
 fn dev_pos(d: &Dev) -> Option<usize> {
     match d {
-        Dev::Alias(i, _) | Dev::Case(i, _) | Dev::Noise(i, _) | Dev::TrailingPunct(i, _) | Dev::Indent(i, _) | Dev::SuffixIs(i, _) => Some(*i),
+        Dev::Alias(i, _) | Dev::Case(i, _) | Dev::Noise(i, _) | Dev::TrailingPunct(i, _) | Dev::Indent(i, _) | Dev::SuffixIs(i, _) | Dev::TrailingPunctAtEof(i, _) => Some(*i),
         Dev::NoFinalNewline | Dev::Whole(_) => None,
     }
 }
